@@ -78,6 +78,33 @@ def popped_unpack(run):
     return out
 
 
+def popped_element(run, e, defs=None):
+    """index i if expression e denotes element i of the popped queue entry in _maybe_issue_command: a name bound by unpacking it,
+    a name defined as <entry>[i], or <entry>[i] itself - <entry> being self.command, the pop() call, or a local alias of either"""
+    mi = U(run, '_maybe_issue_command')
+    defs = defs if defs is not None else local_defs(mi)
+    unp = popped_unpack(run)
+
+    def is_entry(x, depth=0):
+        if dotted(x) == 'self.command' or (isinstance(x, ast.Call) and dotted(x.func) == 'self.commands.pop'):
+            return True
+        if isinstance(x, ast.Name) and depth < 3:
+            d = single_def(defs, x.id)
+            return bool(d and d[0] == 'expr' and is_entry(d[1], depth + 1))
+        return False
+    if isinstance(e, ast.Name):
+        for i, nm in unp.items():
+            if nm == e.id:
+                return i
+        d = single_def(defs, e.id)
+        if d and d[0] == 'expr':
+            return popped_element(run, d[1], defs) if not isinstance(d[1], ast.Name) or d[1].id != e.id else None
+        return None
+    if isinstance(e, ast.Subscript) and isinstance(const(e.slice), int) and is_entry(e.value):
+        return const(e.slice)
+    return None
+
+
 # --------------------------------------------------------------------- R01.1
 def r01_1(run):
     ci = proto(run)
@@ -175,6 +202,9 @@ def r01_2(run):
                 why = '%s has %d definitions / not element %d of the popped tuple' % (head.id, len(ds), idx_cmd)
         elif isinstance(head, ast.Subscript) and dotted(head.value) == 'self.command' and const(head.slice) == idx_cmd:
             ok_head = True
+        if not ok_head and popped_element(run, head, defs) == idx_cmd:
+            # (the element reached through a constant subscript of the entry / an alias of it, and a single definition)
+            ok_head = not isinstance(head, ast.Name) or len(defs.get(head.id, [])) == 1
         run.ob('R01.2', mi, w, 'payload head is the queued command bytes, unmodified', ok_head, slot='head',
                message='written bytes are not the queued command verbatim: %s' % why)
     # queue_command: the queued bytes are the caller's cmd, only ever .encode()d
@@ -326,7 +356,7 @@ def r01_4(run):
         for n in set_def:
             v = assign_to(n.ast, 'self.defer')
             is_d = (isinstance(v, ast.Name) and unp.get(idx_d) == v.id) or \
-                   (isinstance(v, ast.Subscript) and dotted(v.value) == 'self.command' and const(v.slice) == idx_d)
+                   (isinstance(v, ast.Subscript) and dotted(v.value) == 'self.command' and const(v.slice) == idx_d) or popped_element(run, v) == idx_d
             if is_d and g.dominates(n, wn):
                 okd = True
         run.ob('R01.4', mi, wn.ast, "self.defer := the popped command's Deferred before the write", okd, slot='defer-before-write',
